@@ -41,3 +41,6 @@ M("flow-g-not-rebound", "main.py", "f0, f0_old, grad, G = update_fun_def(x, f0, 
 M("maxlen-too-small", "main.py", "    X: Deque[NDArrayFloat] = deque()\n", "    X: Deque[NDArrayFloat] = deque(maxlen=maxcor)\n", ["MAXLEN"], canary=True)
 M("maxlen-from-checkpoint", "main.py", "    G: Deque[NDArrayFloat] = deque()\n", "    G: Deque[NDArrayFloat] = deque(maxlen=len(checkpoint.hess_inv.sk) + 1 if checkpoint is not None else None)\n", ["MAXLEN"])
 Q("maxlen-exact", "main.py", "    X: Deque[NDArrayFloat] = deque()\n", "    X: Deque[NDArrayFloat] = deque(maxlen=maxcor + 1)\n", ["MAXLEN", "MEM"])
+
+# ---- USEFACT (round 5)
+M("usefact-allclose", "bfgsmats.py", "        return self.invMfactors[0].size != 1 or self.invMfactors[0][0, 0] != 0\n", "        return not np.allclose(self.invMfactors[0], 0.0)\n", ["USEFACT"], canary=True)
